@@ -306,7 +306,12 @@ def derived_unknown_names(rng, defs, level_omit, budget):
                   "simulation_settings", "virtual_world", "outputs", "parameter_level", "version"}
     must = {""}
     for w in level_omit:
-        must |= substrings(w) | {w.upper(), w.capitalize(), w + "s", w + "_", "_" + w, " " + w}
+        subs = substrings(w)
+        if len(w) > 10 and budget is not None and budget < 100:
+            # long omit keys in the quick tier: all prefixes, suffixes, single characters + 30 infixes
+            keep = {w[:i] for i in range(1, len(w) + 1)} | {w[i:] for i in range(len(w))} | set(w)
+            subs = keep | set(rng.sample(sorted(subs - keep), min(30, len(subs - keep))))
+        must |= subs | {w.upper(), w.capitalize(), w + "s", w + "_", "_" + w, " " + w}
     more = set()
     for w in core_words:
         more |= substrings(w) | {w.upper(), w.capitalize(), w[:-1], w + "s"}
